@@ -271,6 +271,20 @@ def spec_stats(case):
     return sp.stats
 
 
+def fb_depth(nodes):
+    """deepest nesting of xi:fallback inside xi:fallback in a node list"""
+    d = 0
+    for n in nodes:
+        k = n[0]
+        if k in ('elem', 'if', 'def', 'match'):
+            d = max(d, fb_depth(n[2]))
+        elif k == 'for':
+            d = max(d, fb_depth(n[3]))
+        elif k == 'include' and n[3] is not None:
+            d = max(d, 1 + fb_depth(n[3]))
+    return d
+
+
 def shard(arg):
     seed, idx, n, mode = arg
     res = Result()
@@ -357,6 +371,7 @@ def shard(arg):
         res.count('outcome:' + (real['runtime'][0] if real['runtime'][0] == 'ok' else real['runtime'][1]))
         res.count('files:%d' % sum(len(d) for d in case['dirs']))
         res.count('entry:' + G.entry_kind(case))
+        res.count('fallback-nesting:%d' % max([fb_depth(f['body']) for d in case['dirs'] for _, f in d if 'body' in f] or [0]))
         if real['inline'] != real['runtime']:
             res.count('modes-differ:' + ('inside' if inh else 'outside-hypothesis'))
         st = spec_stats(case)
